@@ -27,7 +27,7 @@ import z3
 from pyvc import SObj, ClassVal, Builtin, PyRaise
 from .common import mk_engine
 from .C13 import K
-from .C12_oracle import ORACLE, DRIVER, REPLAY_ONE, REPLAY_CYCLE
+from .C12_oracle import ORACLE, DRIVER, REPLAY_ONE, REPLAY_CYCLE, REPLAY_IDEM
 
 TITLE = "unify: constructor table, pairwise left-to-right argument unification, occurs check modulo the substitution; real unify == reference unifier on a type pool (bounded)"
 TY = "guppylang_internals.tys.ty"
@@ -703,6 +703,13 @@ def u3(chk):
         sub5 = {C: i_}
         r = it.call(f, [A, k.call(k.Tup, [B, C]), sub5], {})
         out["bind"] = (r, sub5, A, B, C, i_, k.call(k.Tup, [B, i_]))
+        # 6. the result stays IDEMPOTENT: earlier solutions that mention the newly solved variable are
+        # resolved (one application of the result solves a type completely; no caller needs a fixpoint)
+        sub6 = {C: k.call(k.Tup, [A, i_]), B: k.call(k.Tup, [A, A])}
+        before6 = dict(sub6)
+        r6 = it.call(f, [A, k.call(k.Tup, [i_]), sub6], {})
+        free6 = {id(x): [v for v in it.getattr(tv, "unsolved_vars")] for x, tv in r6.items()} if isinstance(r6, dict) else None
+        out["idempotent"] = (r6, free6, sub6, before6, A, B, C, k.call(k.Tup, [k.call(k.Tup, [i_]), i_]), k.call(k.Tup, [k.call(k.Tup, [i_]), k.call(k.Tup, [i_])]))
         return out
     paths = e.explore(t)
     from .C13 import same
@@ -717,10 +724,15 @@ def u3(chk):
         ok = ok and r == ("REC", 1) and len(calls) == 1 and calls[0][0] is A and calls[0][1] is i_ and calls[0][2] is sub
         ok = ok and o["occurs"] is None and o["occurs-through-subst"] is None
         r, sub5, A, B, C, i_, want = o["bind"]
-        ok = ok and isinstance(r, dict) and set(map(id, r.keys())) == {id(A), id(C)} and r[C] is i_ and same(r[A], want)
+        ok = ok and isinstance(r, dict) and set(map(id, r.keys())) == {id(A), id(C)} and same(r[C], i_) and same(r[A], want) and set(map(id, sub5.keys())) == {id(C)}
+        r6, free6, sub6, before6, A, B, C, wantC, wantB = o["idempotent"]
+        ok = ok and isinstance(r6, dict) and set(map(id, r6.keys())) == {id(A), id(B), id(C)}
+        ok = ok and all(not any(v is x for x in r6 for v in vs) for vs in free6.values())        # no solution mentions a solved variable
+        ok = ok and same(r6[C], wantC) and same(r6[B], wantB)
+        ok = ok and set(map(id, sub6.keys())) == set(map(id, before6.keys())) and all(sub6[x] is before6[x] for x in sub6)      # the caller's dict is not written
         return z3.BoolVal(bool(ok))
-    chk.prove_paths("_unify_var:solved-variables-are-replaced/\\occurs-check-sees-through-solved-variables/\\binding-keeps-every-other-entry-and-resolves-the-bound-type", paths, post,
-                    func=f"{TY}:_unify_var", replay=lambda m_: {"script": ORACLE + REPLAY_CYCLE, "input": {}})
+    chk.prove_paths("_unify_var:solved-variables-are-replaced/\\occurs-check-sees-through-solved-variables/\\binding-keeps-every-other-key-and-resolves-the-bound-type/\\result-is-idempotent(no-solution-mentions-a-solved-variable)", paths, post,
+                    func=f"{TY}:_unify_var", replay=lambda m_: {"script": ORACLE + REPLAY_IDEM, "input": {}})
     e.models.pop(f"{TY}:unify", None)
     chk.use_engine(e)
 
